@@ -1,6 +1,10 @@
 package main
 
-import "strings"
+import (
+	"strings"
+
+	"golang.org/x/tools/go/ssa"
+)
 
 // deliveryRuleOf maps a construct reported by the delivery automaton to its rule id.
 func deliveryRuleOf(construct string) string {
@@ -12,7 +16,7 @@ func deliveryRuleOf(construct string) string {
 		return "C08.R1"
 	case has("claim/after-filter"), has("claim/after-context-gate"), has("filter-before-claim"):
 		return "C04.R3"
-	case has("claim-wasted"), has("invokes-handler"):
+	case has("claim-wasted"), has("invokes-handler"), has("released-after-queued"):
 		return "C04.R2"
 	case has("claim-not-retired"), has("retirement-region"):
 		return "C04.R4"
@@ -88,6 +92,22 @@ func init() {
 			}, map[string]string{"C05.R1": "C05.R1", "C05.R4": "C05.R4"})
 			runFrames(c, p, R, map[string]string{"C05.R2": "C05.R2", "C05.R3": "C05.R3", "C06.R2": "C05.R3"})
 			c.Discharge("C05.R4", "claim-word/no-reset-after-dispatch", "", "no store/CAS-back on the claim word is reachable after a dispatch")
+			c.Rule("C05.R5", "the other handlers still receive the event: dispatch ranges over a private snapshot (a panic handler may unsubscribe the faulty handler mid-publish)")
+			checkSnapshot(c, p, R, "C05.R5")
+			// no bus lock is leaked when the user's handler panics (the panic is recovered
+			// further up; a lock taken around the call without defer stays held)
+			res := runLocksPanic(p, busGuards(R), map[string]bool{PkgBus: true}, busImmutable(R), func(cc *ssa.CallCommon) bool { return isUserHandlerCall(R, cc) })
+			c.Stats["product_states"] += res.States
+			leaked := false
+			for _, f := range res.Misc {
+				if strings.Contains(f.Construct, "lock-leaked-on-panic") || strings.Contains(f.Construct, "exit-with-lock") {
+					leaked = true
+					c.Violate("C05.R3", "locking/"+f.Construct, p.Pos(f.Pos), f.Msg, f.Trace)
+				}
+			}
+			if !leaked {
+				c.Discharge("C05.R3", "locks/none-leaked-when-a-handler-panics", "", "on the panic edge of every user-handler call, every lock taken around it is released by a deferred unlock")
+			}
 			c.Floor("C05.R1", "handler invocation sites", c.Stats["handler_invocation_sites"], 7)
 			c.Floor("C05.R2", "panic handler call sites", c.Stats["panic_handler_call_sites"], 1)
 			c.Assume = append(c.Assume, "recover() returns non-nil exactly when called directly by a deferred function during panicking (Go spec)", "panic(nil) is a *runtime.PanicNilError since Go 1.21")
@@ -112,6 +132,7 @@ func init() {
 				}
 				return deliveryRuleOf(k)
 			}, map[string]string{"C06.R2": "C06.R2"})
+			checkPublishCtxNotNarrowed(c, p, R, "C06.R2")
 			c.Floor("C06.R1", "spawn sites", c.Stats["spawn_sites"], 1)
 			c.Floor("C06.R1", "Add sites", c.Stats["wg_add_sites"], 1)
 			c.Floor("C06.R2", "Done sites", c.Stats["wg_done_sites"], 1)
@@ -155,6 +176,7 @@ func init() {
 			runFrames(c, p, R, map[string]string{"C08.R3": "C08.R3"})
 			c.Floor("C08.R1", "context poll sites", c.Stats["context_poll_sites"], 1)
 			c.Floor("C08.R3", "hook call sites", c.Stats["hook_call_sites"], 4)
+			checkHookSlotWriters(c, p, R, "C08.R3")
 			checkHandlerCtxProvenance(c, p, R)
 			// the bundled observability must hand back a context derived from the one it got
 			if po := c.Prog(ModOtel); po != nil {
@@ -169,4 +191,24 @@ func init() {
 			c.Assume = append(c.Assume, "user hooks return", "an Observability implementation derives the context it returns from the one it is given (checked for the bundled otel implementation under C20)")
 		},
 	})
+}
+
+// isUserHandlerCall: a dynamic call of the subscribed handler (a value of the named
+// Handler / ContextHandler func types, or the registration's handler field).
+func isUserHandlerCall(R *BusRoles, c *ssa.CallCommon) bool {
+	if !isDynamicCall(c) {
+		return false
+	}
+	v := c.Value
+	if x, ok := throughAssert(v); ok {
+		v = x
+	}
+	if tn, fld, _, ok := fieldLoad(v); ok && tn == R.RegName() && fld == R.RegHandler {
+		return true
+	}
+	t := c.Value.Type()
+	if n := typeName(t); n == "Handler" || n == "ContextHandler" {
+		return true
+	}
+	return false
 }
